@@ -57,6 +57,11 @@ Definition start_io_except (l : lterm) : ret :=
 Definition propagate (l : lterm) : ret :=
   match l with LNormal => Returns | LRaised x => Propagates x end.
 
+(* MODELLING ASSUMPTION (checked by the tie, harness/c15.py check_restart): every run of a wrapper
+   starts from `fresh` - in particular start_io / start_tcp install a NEW, unset stop event
+   (`self._stop_event = Event()`), so that starting the same server object again after a disconnect
+   serves the next peer exactly like the first; the loop model accordingly never finds the stop
+   event set on entry. *)
 Definition wrapper_run (w : wrapper) (l : lterm) : sstate * ret :=
   match w with
   | StartIoAsync | StartIoSync =>
